@@ -48,6 +48,32 @@ theorem data_frame_bounds {s s' : Streams} (h : SafeInv s) {fuel maxLen len : Na
     have := hw' this
     omega
 
+/-- C02: at the moment a chunk is cut (`DataCut`), neither `FlowControl::send_data` call of `pop_frame`
+    can fail: not the `assert!(self.window_size.0 >= sz as i32)` (a panic), not the checked
+    subtractions — on the stream and on the connection -/
+theorem send_data_cannot_fail {s1 : Streams} (h : SafeInv s1) {k len maxLen : Nat} (hc : DataCut s1 k len maxLen) :
+    ((s1.stream k).sendFlow.sendData len).2 = .ok () ∧
+    ((s1.prio.flow.assignCapacity len).1.sendData len).2 = .ok () := by
+  have hok := h.stream_ok k
+  refine ⟨(flOk_send hok hc.le_cap hc.le_win).2.2.2, ?_⟩
+  have h1 := hc.le_cap
+  have h0 := hok.av0
+  have hA := h.a0
+  have hle : (len : Int) + s1.prio.flow.available.val ≤ s1.prio.flow.windowSize.val := by
+    cases hget : s1.store.get? k with
+    | none =>
+      have hb : s1.stream k = { key := k, id := 0 } := by unfold Streams.stream; rw [hget]; rfl
+      rw [hb] at h1
+      have : ({ key := k, id := 0 } : Stream).sendFlow.available.asSize = 0 := rfl
+      have := h.av_le
+      omega
+    | some st =>
+      rw [stream_of_get hget] at h1 h0
+      have := h.st_le (get?_mem hget).1
+      rw [asSize_eq] at h1
+      omega
+  exact (conn_send (f := s1.prio.flow) hA (n := len) (by omega) h.whi).2.2
+
 /-- C02: while a window is zero or negative only zero-length DATA is sent against it -/
 theorem empty_data_on_exhausted_window {s s' : Streams} (h : SafeInv s) {fuel maxLen len : Nat} {eos : Bool}
     {fr : DataFrame} (hp : Streams.popFrame fuel s maxLen = (s', some (.data len eos fr))) :
